@@ -384,7 +384,7 @@ def clientPick (scheme : Scheme) (cfgProto : Option SessProto) (mediaProfile : P
   (protocol, if scheme = .rtsps ∧ isSecure mediaProfile then .savp else .avp)
 
 inductive ClientSetup where
-  | refused                       -- "unable to setup secure UDP"
+  | refused                       -- "unable to setup secure UDP" / H264 packetization mode 0 over UDP
   | request (p : SessProto) (pr : Profile) (withKeyMgmt : Bool)
 deriving DecidableEq, Repr
 
@@ -394,6 +394,7 @@ def clientSetupRequest (scheme : Scheme) (cfgProto : Option SessProto) (mediaPro
     (h264m0 tunnel : Bool) : ClientSetup :=
   let (p, pr) := clientPick scheme cfgProto mediaProfile h264m0 tunnel
   if (p = .udp ∨ p = .mcast) ∧ Sec.clientNoPlainUDPOverTLS ∧ scheme = .rtsps ∧ !isSecure pr then .refused
+  else if h264m0 ∧ p ≠ .tcp then .refused          -- ErrClientH264PacketizationMode0
   else .request p pr (isSecure pr)
 
 /-- the client's check of the SETUP response profile (`thRes.Profile != th.Profile`) -/
